@@ -10,7 +10,7 @@ LIMIT_S = 10          # wall-clock limit for the constructor and for each elabor
 N = {"quick": 720, "thorough": 9000}
 CLS = {"mux": 1, "csrdec": 2, "csrbridge": 3, "register": 4, "action": 5, "monitor": 6, "csrevent": 7,
        "wbcsr": 8, "wbdec": 9, "arbiter": 10, "sram": 11, "gpio": 12}
-RULE = ("idx 0 = K2 probe (600 one-byte readable registers), idx 1 = submodule-name-collision probe; otherwise the class "
+RULE = ("idx 0 = K2 probe (500 one-byte readable registers), idx 1 = submodule-name-collision probe; otherwise the class "
         "is idx mod 12 over csr.Multiplexer (mock registers, natural / packed / unaligned / padded layouts, span <= 2^12, "
         "shadow_overlaps in {None,0,1,2,3,4,5,8}; thorough adds every placement of two registers in [0,8) x {None,0,1,2}), "
         "csr.Decoder, csr.Bridge over csr.Builder (Cluster / Index scopes, real Registers), csr.Register (field trees, every "
@@ -62,7 +62,7 @@ def lg(x):
 # generators
 # ================================================================================================
 
-def maybe_bad(rnd, v, p=0.06):
+def maybe_bad(rnd, v, p=0.04):
     return rnd.choice(BAD) if rnd.random() < p else v
 
 
@@ -233,7 +233,7 @@ def gen_sources(rnd, nmax):
 
 
 def gen_monitor(rnd, tier):
-    return {"srcs": gen_sources(rnd, 20), "trigger": rnd.choice(["level", "rise", "fall", "level", "x", None]),
+    return {"srcs": gen_sources(rnd, 20), "trigger": rnd.choice(["level", "rise", "fall", "level", "rise", "fall", "level", "x", None, 3]),
             "bad": "notmap" if rnd.random() < 0.05 else None}
 
 
@@ -297,10 +297,13 @@ def gen_sram(rnd, tier, idx):
 
 
 def gen_gpio(rnd, tier):
-    return {"pins": maybe_bad(rnd, rnd.choice([1, 1, 2, 3, 4, 7, 8, 16, 20]), 0.08),
-            "aw": maybe_bad(rnd, rnd.choice([2, 3, 4, 5, 8]), 0.08),
-            "dw": maybe_bad(rnd, rnd.choice([8, 8, 8, 16, 32, 1, 4, 13]), 0.08),
-            "stages": maybe_bad(rnd, rnd.choice([0, 1, 2, 2, 3, 4]), 0.08)}
+    pins = rnd.choice([1, 1, 2, 3, 4, 7, 8, 16, 20])
+    dw = rnd.choice([8, 8, 8, 16, 32, 1, 4, 13])
+    need = 4 + ceil_log2(max(1, -(-2 * pins // dw)))        # Mode and SetClr take 2 bits per pin
+    return {"pins": maybe_bad(rnd, pins, 0.05),
+            "aw": maybe_bad(rnd, rnd.choice([need, need, need + 1, need + 3, 2, 3, 4]), 0.05),
+            "dw": maybe_bad(rnd, dw, 0.05),
+            "stages": maybe_bad(rnd, rnd.choice([0, 1, 2, 2, 3, 4]), 0.05)}
 
 
 KINDS = ["mux", "csrdec", "csrbridge", "register", "action", "monitor", "csrevent", "wbcsr", "wbdec", "arbiter",
@@ -332,7 +335,7 @@ def gen_case(seed, tier, idx):
     rnd = mkrnd(seed, "elab", idx)
     if idx == 0:
         return {"engine": "elab", "kind": "mux", "sub": "k2probe", "pred": 0,
-                "cfg": {"aw": 12, "dw": 8, "regs": [[i, i + 1, 8, 1, 1] for i in range(600)], "ov": None, "bad": None}}
+                "cfg": {"aw": 12, "dw": 8, "regs": [[i, i + 1, 8, 1, 1] for i in range(500)], "ov": None, "bad": None}}
     if idx == 1:
         return gen_collision(rnd)
     nk = len(KINDS)
